@@ -94,6 +94,8 @@ def probe_portfolio(spec):
                 # robust target over perturbed price scenarios; the reported value is documented to be that of the original prices
                 ps = [{k: (v * f if k.startswith('p') else v) for k, v in prices.items()} for f in (0.5, 1.5, 0.75)][:int(opts['robust'])]
                 kw.update(target='robust', samples=portf.create_cost_samples(ps, tg))
+            if opts.get('soft_first'):
+                op.optimize(make_soft_problem=True)       # the relaxed problem is looked at first, on the same object
             res = op.optimize(**kw)
         except Exception as e:
             res = None
